@@ -560,7 +560,7 @@ func (c *Client) processSuback(suback *packet.Suback) error {
 	// remove packet from store
 	err := c.Session.DeletePacket(session.Outgoing, suback.ID)
 	if err != nil {
-		return err
+		return c.die(err, true)
 	}
 
 	// get future
@@ -577,7 +577,7 @@ func (c *Client) processSuback(suback *packet.Suback) error {
 		for _, code := range suback.ReturnCodes {
 			if code == packet.QOSFailure {
 				subscribeFuture.Cancel(nil)
-				return ErrFailedSubscription
+				return c.die(ErrFailedSubscription, true)
 			}
 		}
 	}
@@ -593,7 +593,7 @@ func (c *Client) processUnsuback(unsuback *packet.Unsuback) error {
 	// remove packet from store
 	err := c.Session.DeletePacket(session.Outgoing, unsuback.ID)
 	if err != nil {
-		return err
+		return c.die(err, true)
 	}
 
 	// get future
@@ -662,7 +662,7 @@ func (c *Client) processPubackAndPubcomp(id packet.ID) error {
 	// remove packet from store
 	err := c.Session.DeletePacket(session.Outgoing, id)
 	if err != nil {
-		return err
+		return c.die(err, true)
 	}
 
 	// get future
